@@ -58,35 +58,44 @@ def escape (s : Str) : Str := s.flatMap escapeChar
 
 def q (s : Str) : Str := '"' :: s ++ ['"']
 
-def optMember (pre : Str) (key : Str) (v : Option Str) (post : Str) : Str :=
+/-- one object member: leading whitespace, quoted key, `: `, value text -/
+def member (pre key val : Str) : Str := pre ++ '"' :: key ++ '"' :: ':' :: ' ' :: val
+
+def optMember (pre key : Str) (v : Option Str) : List Str :=
   match v with
-  | some x => pre ++ q key ++ str ": " ++ q x ++ post
+  | some x => [member pre key (q x)]
   | none => []
 
+/-- comma-joined -/
+def joinC : List Str → Str
+  | [] => []
+  | [x] => x
+  | x :: xs => x ++ ',' :: joinC xs
+
 mutual
-def ser : JNode → Str
+/-- the members of the object a node is written as, in order -/
+def members : JNode → List Str
   | .stmt name level anno dov children =>
-    str "{\n" ++ q (str "name") ++ str ": " ++ q name ++ str ",\n" ++
-    q (str "level") ++ str ": " ++ natStr level ++ str ", " ++
-    optMember [] (str "anno") anno (str ", ") ++ optMember [] (str "dov") dov (str ", ") ++
-    str "\n" ++ q (str "children") ++ str ": [" ++
-    (match children with
-     | .nil => []
-     | cs => str "\n" ++ serList cs ++ str "\n") ++
-    str "]\n}"
+    [member (str "\n") (str "name") (q name), member (str "\n") (str "level") (natStr level)] ++
+    optMember (str " ") (str "anno") anno ++ optMember (str " ") (str "dov") dov ++
+    [member (str " \n") (str "children") (arrStr (str "\n") children) ++ str "\n"]
   | .leaf name comp level props anno dov =>
-    '{' :: q (str "name") ++ str ": " ++ q name ++ serTail comp level props anno dov
+    [member [] (str "name") (q name)] ++ tailMembers comp level props anno dov
   | .comb op children comp level props anno dov =>
-    '{' :: q (str "name") ++ str ": " ++ q op ++ str ",\n" ++ q (str "children") ++ str ": [" ++
-    serList children ++ [']'] ++ serTail comp level props anno dov
-def serTail (comp : Str) (level : Nat) (props : Props) (anno dov : Option Str) : Str :=
-  str ", " ++ q (str "comp") ++ str ": " ++ q comp ++ str ", " ++ q (str "level") ++ str ": " ++ natStr level ++
-  serProps props ++ optMember (str ", ") (str "anno") anno [] ++ optMember (str ", ") (str "dov") dov [] ++ ['}']
-def serProps : Props → Str
+    [member [] (str "name") (q op), member (str "\n") (str "children") (arrStr [] children)] ++
+    tailMembers comp level props anno dov
+def tailMembers (comp : Str) (level : Nat) (props : Props) (anno dov : Option Str) : List Str :=
+  [member (str " ") (str "comp") (q comp), member (str " ") (str "level") (natStr level)] ++
+  propMembers props ++ optMember (str " ") (str "anno") anno ++ optMember (str " ") (str "dov") dov
+def propMembers : Props → List Str
   | .none => []
-  | .flat s => str ", " ++ q (str "prop") ++ str ": " ++ q s
-  | .tree cs => str ", " ++ q (str "pos") ++ str ": " ++ q (str "b") ++ str ", " ++ q (str "children") ++ str ": [" ++
-      serList cs ++ [']']
+  | .flat s => [member (str " ") (str "prop") (q s)]
+  | .tree cs => [member (str " ") (str "pos") (q (str "b")), member (str " ") (str "children") (arrStr [] cs)]
+/-- `[` inner items inner `]`; `inner` (a line break or nothing) only around a non-empty list -/
+def arrStr (inner : Str) : JList → Str
+  | .nil => ['[', ']']
+  | .cons x sep rest => '[' :: inner ++ serList (.cons x sep rest) ++ inner ++ [']']
+def ser (j : JNode) : Str := '{' :: joinC (members j) ++ ['}']
 def serList : JList → Str
   | .nil => []
   | .cons x _ .nil => ser x
